@@ -1,3 +1,6 @@
 pub mod util;
 
 pub mod c01;
+pub mod c02;
+pub mod c03;
+pub mod c04;
